@@ -54,7 +54,7 @@ func (c06) Budget(tier string) runner.Budget {
 
 func (c06) Describe() runner.Description {
 	return runner.Description{
-		Rule: "each plan: 3..16 blocks, one transaction per block in ~80% of blocks (so the per-transaction statement is judged), value-heavy mix: multi-target transfers that fail part-way, zero/fractional/>18-decimal/negative/huge amounts, fee with insufficient balance, contract create with endowment (succeeding and failing), calls with value into programs that forward value, revert, burn all gas after moving value, self-destruct to the caller / to themselves, gas limits at and below the intrinsic cost (gas starvation), miner apply/add-stake/refund (stake lock and escrow), heights jumping to escrow release heights. After every block over the closed universe U (harness accounts, fee account, every contract ever created, miner accounts, escrow beneficiaries): sum(after) - sum(before) = + escrow released at this height (read from the escrow entries before the block) - stake locked by accepted apply/add-stake - balance of a contract that self-destructed naming itself; every balance in [0, 2^256); a failed transaction leaves the sum unchanged. distinct_nontrivial = distinct (tx kind, status, sum-delta sign) sequences with at least one failed value-moving transaction.",
+		Rule: "each plan: 3..16 blocks, one transaction per block in ~80% of blocks (so the per-transaction statement is judged), value-heavy mix: multi-target transfers that fail part-way, zero/fractional/>18-decimal/negative/huge amounts, fee with insufficient balance, contract create with endowment (succeeding and failing; native and wrapped-Ethereum type 188 form), calls with value into programs that forward value, revert, burn all gas after moving value, self-destruct to the caller / to themselves, gas limits at and below the intrinsic cost (gas starvation), miner apply/add-stake/refund (stake lock and escrow), heights jumping to escrow release heights. After every block over the closed universe U (harness accounts, fee account, every contract ever created, miner accounts, escrow beneficiaries): sum(after) - sum(before) = + escrow released at this height (read from the escrow entries before the block) - stake locked by accepted apply/add-stake - balance of a contract that self-destructed naming itself; every balance in [0, 2^256); a failed transaction leaves the sum unchanged. distinct_nontrivial = distinct (tx kind, status, sum-delta sign) sequences with at least one failed value-moving transaction.",
 		Assumptions: []string{"the address universe is closed under the generated transactions (targets, beneficiaries and created contracts are added as they appear)", "block rewards are scheduled into per-height escrow and only enter balances when released; the released amount is read from the escrow, not recomputed"},
 		Real:        []string{"core/vmexecutor", "executor (operator, contract, miner)", "vm (EVM: CALL/CREATE/SELFDESTRUCT with value)", "service (ChangeAssets, fee processing, miner/refund/reward managers)", "storage/account balances in the bound token contract"},
 		Stub:        []string{"ConsensusHelper", "network", "NTP clock"},
@@ -84,11 +84,16 @@ func c06GenTx(r *simrt.Rand, i int) node.TxSpec {
 		s.Prog = r.Intn(8)
 		s.Value = []string{"0", "1", "3.5", "100000000000", "0.000000000000000001"}[r.Intn(5)]
 		s.Gas = []uint64{0, 60000000, 1590000, 1700000, 2500000, 8000000}[r.Intn(6)]
+		s.Eth = r.Chance(0.35)
 	case x < 80:
 		s.K = "call"
 		s.To = fmt.Sprintf("#%d", r.Intn(6))
 		s.Value = []string{"0", "1", "2.5", "7000", "100000000000", "0.000000000000000001"}[r.Intn(6)]
 		s.Gas = []uint64{0, 629999, 630000, 640000, 700000, 1200000, 6000000}[r.Intn(7)]
+		s.Eth = r.Chance(0.35)
+		if s.Eth && r.Chance(0.15) {
+			s.NDelta = []int{-1, 1}[r.Intn(2)]
+		}
 	case x < 88:
 		s.K = "apply"
 		s.From = 4 + r.Intn(4)
@@ -252,7 +257,22 @@ func (c06) Exec(raw json.RawMessage, st *simrt.Stats, log *simrt.Log) *simrt.Vio
 		}
 		var btx []*types.Transaction
 		specOf := map[common.Hash]node.TxSpec{}
+		nonceState := ec.state()
+		ctSeq := map[int]uint64{}
 		for _, s := range b.Txs {
+			f := ((s.From % 8) + 8) % 8
+			if s.Eth {
+				// wrapped Ethereum form: nonce-checked against the state (plus the sender's earlier contract
+				// transactions of this block, each of which bumps the nonce when it runs)
+				want := int64(nonceState.GetNonce(common.HexToAddress(node.Account(f)))+ctSeq[f]) + int64(s.NDelta)
+				if want < 0 {
+					want = 0
+				}
+				s.Nonce = uint64(want)
+			}
+			if (s.K == "create" || s.K == "call") && s.NDelta == 0 {
+				ctSeq[f]++
+			}
 			if strings.HasPrefix(s.To, "#") {
 				var k int
 				fmt.Sscanf(s.To, "#%d", &k)
@@ -293,10 +313,14 @@ func (c06) Exec(raw json.RawMessage, st *simrt.Stats, log *simrt.Log) *simrt.Vio
 			ok := rc.Status == types.ReceiptStatusSuccessful
 			log.Add("block %d h=%d %s from=%d val=%s gas=%d ok=%v msg=%.80s", bi, height, s.K, s.From, s.Value, s.Gas, ok, rc.Msg)
 			seq += fmt.Sprintf("%s%v,", s.K[:2], ok)
+			pk := s.K
+			if s.Eth {
+				pk = "eth" + s.K
+			}
 			if ok {
-				st.Probe("ok_" + s.K)
+				st.Probe("ok_" + pk)
 			} else {
-				st.Probe("fail_" + s.K)
+				st.Probe("fail_" + pk)
 			}
 			if !ok {
 				st.Fault("failed_tx")
